@@ -41,10 +41,17 @@ type g2lUnit struct {
 	absVars   map[string]string // Go package variable -> Lean parameter name ("emptyHash" -> "empty")
 	ifaces    map[string]string // interface type name -> Lean type of the value (its single method is application)
 	imports   []string          // extra Lean imports
+	opens     []string          // extra namespaces to open
 	externs   map[string]string // calls to functions of OTHER units: "semver.IsValid" -> "ModVerif.Generated.Semver.IsValid"
 	externFx  map[string]bool   // extern is effectful (in M)
 	externFue map[string]bool   // extern takes fuel
 	structNames []string        // struct types of the package to emit
+	noEq      map[string]bool   // structs without DecidableEq (function fields)
+	effFns    map[string]string // function -> Lean type of one effect-log entry (its result becomes R × List entry)
+	ifaceStructs map[string]string // multi-method interface -> Lean structure text (emitted verbatim); method call = field application
+	effects   map[string]string // interface method with no result -> treated as an effect appended to `effLog` (value = Lean type of one log entry)
+	preamble  string            // extra Lean text after the struct declarations
+	structTV  map[string]bool   // computed: struct is parametric in the abstract type variables
 }
 
 type g2lPkg struct {
@@ -140,6 +147,8 @@ type g2lFn struct {
 	monad    string
 	want     types.Type // expected type of the expression being compiled (for nil)
 	objNames map[types.Object]string
+	usesEff  bool
+	effType  string
 	usedName map[string]bool
 	structs  map[string]*types.Named
 }
@@ -273,18 +282,23 @@ func (f *g2lFn) leanType(t types.Type, at ast.Node) string {
 		if isErrorType(t) {
 			return "(Option String)"
 		}
-		if _, ok := n.Underlying().(*types.Struct); ok {
+		if _, ok := f.u.ifaceStructs[name]; ok {
 			return name
+		}
+		if _, ok := n.Underlying().(*types.Struct); ok {
+			return f.structType(name)
 		}
 	}
 	if p, ok := t.(*types.Pointer); ok {
 		if n, ok := p.Elem().(*types.Named); ok {
 			if _, ok := n.Underlying().(*types.Struct); ok {
-				return n.Obj().Name()
+				return f.structType(n.Obj().Name())
 			}
 		}
 	}
 	switch u := t.Underlying().(type) {
+	case *types.Map:
+		return "(List (" + f.leanType(u.Key(), at) + " × " + f.leanType(u.Elem(), at) + "))"
 	case *types.Basic:
 		switch {
 		case intKindOf(t) != notInt:
@@ -315,6 +329,13 @@ func (f *g2lFn) leanType(t types.Type, at ast.Node) string {
 
 func (f *g2lFn) noteAbsType(string) {}
 
+func (f *g2lFn) structType(name string) string {
+	if f.u.structTV[name] {
+		return "(" + name + " " + strings.Join(sortedVals(f.u.absTypes), " ") + ")"
+	}
+	return name
+}
+
 func (f *g2lFn) zero(t types.Type, at ast.Node) string {
 	if n, ok := t.(*types.Named); ok {
 		if v, ok := f.u.absTypes[n.Obj().Name()]; ok {
@@ -323,11 +344,16 @@ func (f *g2lFn) zero(t types.Type, at ast.Node) string {
 		if isErrorType(t) {
 			return "none"
 		}
-		if _, ok := n.Underlying().(*types.Struct); ok {
+		if _, ok := f.u.ifaceStructs[n.Obj().Name()]; ok {
 			return "(default : " + n.Obj().Name() + ")"
+		}
+		if _, ok := n.Underlying().(*types.Struct); ok {
+			return "(default : " + f.structType(n.Obj().Name()) + ")"
 		}
 	}
 	switch t.Underlying().(type) {
+	case *types.Map:
+		return "([] : " + f.leanType(t, at) + ")"
 	case *types.Basic:
 		switch {
 		case intKindOf(t) != notInt:
@@ -468,6 +494,13 @@ func (f *g2lFn) expr(b *binds, e ast.Expr) string {
 	case *ast.BasicLit:
 		f.bad(e, "literal %s", e.Value)
 	case *ast.UnaryExpr:
+		if e.Op == token.AND {
+			if cl, ok := e.X.(*ast.CompositeLit); ok {
+				if n, ok := f.typeOf(cl).(*types.Named); ok && g2lImplementsError(types.NewPointer(n)) {
+					return fmt.Sprintf("(some %q)", n.Obj().Name())
+				}
+			}
+		}
 		x := f.expr(b, e.X)
 		switch e.Op {
 		case token.NOT:
@@ -492,6 +525,12 @@ func (f *g2lFn) expr(b *binds, e ast.Expr) string {
 		if _, ok := f.typeOf(e.X).Underlying().(*types.Slice); ok {
 			return f.bindM(b, fmt.Sprintf("idxL %s %s", x, i))
 		}
+		if mt, ok := f.typeOf(e.X).Underlying().(*types.Map); ok {
+			if tup, ok := f.typeOf(e).(*types.Tuple); ok && tup.Len() == 2 {
+				return fmt.Sprintf("(mapGet %s %s %s)", x, i, f.zero(mt.Elem(), e))
+			}
+			return fmt.Sprintf("(mapGet %s %s %s).1", x, i, f.zero(mt.Elem(), e))
+		}
 		f.bad(e, "index of %s", f.typeOf(e.X))
 	case *ast.SliceExpr:
 		if e.Slice3 {
@@ -499,6 +538,14 @@ func (f *g2lFn) expr(b *binds, e ast.Expr) string {
 		}
 		x := f.expr(b, e.X)
 		if _, ok := f.typeOf(e.X).Underlying().(*types.Array); ok {
+			if n, ok := f.typeOf(e.X).(*types.Named); ok && e.Low == nil && e.High == nil {
+				if _, ok := f.u.absTypes[n.Obj().Name()]; ok {
+					if p, ok := f.u.absFuncs[n.Obj().Name()+"[:]"]; ok {
+						f.useAbs(p)
+						return "(" + p + " " + x + ")"
+					}
+				}
+			}
 			f.bad(e, "slice of array")
 		}
 		switch {
@@ -717,3 +764,7 @@ func (f *g2lFn) convert(b *binds, to types.Type, arg ast.Expr, at ast.Node) stri
 	f.bad(at, "conversion %s -> %s", from, to)
 	return ""
 }
+
+var g2lErrorIface = types.Universe.Lookup("error").Type().Underlying().(*types.Interface)
+
+func g2lImplementsError(t types.Type) bool { return types.Implements(t, g2lErrorIface) }
